@@ -287,7 +287,7 @@ def minimise(scn, oracle):
     base.pop("writer_ops", None)
 
     def ok(cand):
-        return _first_failing_fault(cand, oracle, kind, dl) is not None
+        return common.valid_scenario(cand) and _first_failing_fault(cand, oracle, kind, dl) is not None
 
     def with_items(lst):
         return dict(base, **{key: lst})
